@@ -23,7 +23,7 @@ def run(ctx, rep):
                     "CPython buffered file I/O and struct.pack (modelled: in-order byte stream, big-endian packing)"]
     rep.assumptions += ["session discipline: a handle open for append is the only open handle (what the lock of C04 enforces)",
                         "creation modes x/w are used only to create the file; reopening uses r/a"]
-    ok, out, where = vlib.build_props(ctx, rep, "C02")
+    ok, out, where = vlib.build_props(ctx, rep, "C02", extra_targets=["Model/Backend.vo"])
     work = ctx.sub("ukv")
     path = os.path.join(work, "t.ukv")
     hists = [(h, 1) for h in exhaustive_histories(4 if ctx.thorough else 3)]
@@ -45,6 +45,31 @@ def run(ctx, rep):
         for sig, text in d["oracle"]:
             rep.violate(sig, text, {"ops": [_ser(o) for o in h], "nh": nh, "hdr": n % 3})
     bad = vlib.run_shards(ctx, rep, "c02", U.HEADER, "check_case", cases, shard=300, case_type="case")
+    # ---- Collection / backend level: write queue, key set, buffer sizes, sessions
+    bcases, bmeta = [], []
+    cpath = os.path.join(work, "c.ukv")
+    for n in range(3000 if ctx.thorough else 400):
+        cfg = [(ctx.rng.choice(U.BUFS), ctx.rng.random() < 0.15) for _ in range(ctx.rng.randint(1, 3))]
+        if all(ro for _, ro in cfg):
+            cfg[0] = (cfg[0][0], False)
+        h = U.gen_chistory(ctx.rng, cfg)
+        d = U.cdrive(cpath, h, cfg)
+        bcases.append(U.bcase_coq(d, cfg)); bmeta.append((h, cfg))
+        rep.case(key="; ".join(d["ops"]) if any(r == "BOk" and o.startswith("CPut") for o, r in zip(d["ops"], d["results"])) else None,
+                 sample={"cfg": cfg, "ops": d["ops"][:8], "results": d["results"][:8]} if n % 173 == 3 else None)
+        for o, r in zip(d["ops"], d["results"]):
+            rep.count("bop:" + o.split()[0]); rep.count("bres:" + " ".join(r.strip("()").split()[:2 if "BErr" in r else 1]))
+        for bs, _ in cfg:
+            rep.count(f"bufsize:{bs}")
+        for sig, text in d["oracle"]:
+            rep.violate(sig, text, {"kind": "collection", "cfg": cfg, "ops": [_ser(o) for o in h]})
+    bbad = vlib.run_shards(ctx, rep, "c02b", U.HEADER_B, "check_bcase", bcases, shard=200, case_type="bcase")
+    if bbad is None:
+        vlib.broken_obligation(rep, "corr_c02b", "a correspondence shard did not compile: " + str(rep.extra.get("shard_errors"))[-1500:], bool(rep.violations))
+    elif bbad and not rep.violations:
+        h, cfg = bmeta[bbad[0]]
+        rep.violate("broken:corr_c02b", f"backend model and implementation disagree on {len(bbad)} collection histories (first: cfg={cfg} {[_ser(o) for o in h][:12]}) "
+                    "but the oracle finds no property violation on them", {"kind": "collection", "cfg": cfg, "ops": [_ser(o) for o in h], "obligation": "corr_c02b"}, no_input=True)
     found = bool(rep.violations)
     if bad is None:
         vlib.broken_obligation(rep, "corr_c02", "a correspondence shard did not compile: " + str(rep.extra.get("shard_errors"))[-1500:], found)
@@ -63,8 +88,10 @@ def _ser(o):
     return [x.hex() if isinstance(x, bytes) else ([x.seed, x.n] if isinstance(x, U.Val) else x) for x in o]
 
 
-def _deser(o):
+def _deser(o, coll=False):
     o = list(o)
+    if coll:
+        return ("put", o[1], o[2], U.Val(*o[3])) if o[0] == "put" else tuple(o)
     if o[0] == "put":
         return ("put", o[1], bytes.fromhex(o[2]), U.Val(*o[3]))
     if o[0] == "get":
@@ -73,6 +100,10 @@ def _deser(o):
 
 
 def replay(ctx, data):
+    if data.get("kind") == "collection":
+        d = U.cdrive(os.path.join(ctx.sub("ukv"), "c.ukv"), [_deser(o, True) for o in data["ops"]], [tuple(x) for x in data["cfg"]])
+        print("ops:", d["ops"]); print("results:", d["results"])
+        return [vlib.Violation(s, t) for s, t in d["oracle"]]
     hdrs = [dict(), dict(h2=b"a comment", b0=b"\x00\x01descr"), dict(h1=b"ML10Library", h2=b"x" * 300)]
     d = U.drive(os.path.join(ctx.sub("ukv"), "t.ukv"), [_deser(o) for o in data["ops"]], nh=data["nh"], **hdrs[data.get("hdr", 0)])
     print("ops:", d["ops"]); print("results:", d["results"])
